@@ -2,6 +2,7 @@ import RubyTi.Model.Reader
 import RubyTi.Model.Lexer
 import RubyTi.Model.Token
 import RubyTi.Model.Config
+import RubyTi.Model.Args
 
 /-! Line-protocol driver over the executable model definitions (core-only, built as `lean_exe`).
 One op per input line, one answer line per op; the answer format is the one
@@ -129,6 +130,17 @@ def opPArgs (args : String) : String :=
 
 def opBuiltin (args : String) : String := (Config.convertToBuiltinT args.toList).enc
 
+def opPrio (args : String) : String :=
+  let toks := (args.splitOn " ").filter (· != "")
+  let as : List (Args.Arg String) := toks.map fun f =>
+    if f.startsWith "k:" then ⟨some ((f.drop 2).toString.toList ++ [':']), (f.drop 2).toString⟩
+    else ⟨none, (f.drop 2).toString⟩
+  " ".intercalate ((Args.prioritize as).map fun a => (if a.key.isSome then "k:" else "p:") ++ a.val)
+
+def opPDef (args : String) : String :=
+  let names := ((args.splitOn " ").filter (· != "")).map String.toList
+  " ".intercalate ((Args.prioritizeDefineArgNames names).map String.ofList)
+
 def dispatch (line : String) : String :=
   if line.isEmpty then "" else
   let name := (line.splitOn " ").headD ""
@@ -140,6 +152,8 @@ def dispatch (line : String) : String :=
   else if name == "pret" then opPRet args
   else if name == "pargs" then opPArgs args
   else if name == "builtin" then opBuiltin args
+  else if name == "prio" then opPrio args
+  else if name == "pdef" then opPDef args
   else "BAD-OP " ++ name
 
 partial def loop (h : IO.FS.Stream) (out : IO.FS.Stream) : IO Unit := do
